@@ -161,14 +161,14 @@ def run(ck):
                 probs.append("%r is written for %s but read back as %s" % (lit, en.rsplit("::", 1)[1], reader[key].rsplit("::", 1)[-1]))
         return probs
 
-    w = tables.switch_map(lib.single(prog, HH + "Connection::write"))
+    w = tables.writer_map(prog, lib.single(prog, HH + "Connection::write"), lib)
     r = tables.reader_map(prog, lib.single(prog, HH + "Connection::parseRaw"))
     pr_ = lib.single(prog, HH + "Connection::parseRaw")
     ins = all(any(a.get("const") == "e:Pistache::CaseSensitivity::Insensitive" for a in e.get("args", [])) for e in pr_.calls(lambda e: (e.get("callee") or "") == "Pistache::match_string"))
     ck.require(len(w) >= 2 and len(r) >= 2, "Connection tables not extracted (%d/%d)" % (len(w), len(r)))
     probs = agree("Connection", w, r, ins, allow_unmapped=("Pistache::Http::ConnectionControl::Ext",))
     ck.ob("C16-R3", "table:Connection", not probs, pr_.loc, pr_, "; ".join(probs) or "writer %s ⊆ reader %s (case-insensitive=%s)" % (sorted(w.values()), sorted(r), ins))
-    w = tables.switch_map(lib.single(prog, HH + "encodingString"))
+    w = tables.writer_map(prog, lib.single(prog, HH + "encodingString"), lib)
     er = lib.single(prog, HH + "EncodingHeader::parseRaw")
     r = tables.reader_map(prog, er)
     ck.require(len(w) >= 5 and len(r) >= 5, "Encoding tables not extracted (%d/%d)" % (len(w), len(r)))
@@ -202,10 +202,17 @@ def run(ck):
         probs.append("a directive is both trivial and timed: %s" % sorted(set(triv) & set(timed)))
     ck.ob("C16-R3", "table:CacheControl", not probs, cr.loc, cr, "; ".join(probs) or "%d directive names agree; delta-bearing set == timed table %s" % (len(rd), sorted(rt)))
     ew = lib.single(prog, HH + "Expect::write")
-    lits = [a["const"][2:] for e in ew.events("call") if e.get("op") == "<<" for a in e.get("args", []) if isinstance(a.get("const"), str) and a["const"].startswith("s:")]
-    erd = tables.reader_map(prog, lib.single(prog, HH + "Expect::parseRaw"))
-    ok = bool(lits) and all(l in erd for l in lits)
+    lits = [l_ for l_ in (tables.arg_literal(prog, a) for e in ew.events("call") if e.get("op") == "<<" for a in e.get("args", [])[-1:]) if l_ is not None]
     epr = lib.single(prog, HH + "Expect::parseRaw")
+    erd = dict(tables.reader_map(prog, epr))
+    # other reader shapes: the literal (or the named constant both sides share) handed to a comparison routine
+    for e in epr.events("call"):
+        if (e.get("callee") or "") in tables.MATCHERS | {"memcmp", "std::memcmp"}:
+            for a in e.get("args", []):
+                l_ = tables.arg_literal(prog, a)
+                if l_ is not None:
+                    erd.setdefault(l_, "?")
+    ok = bool(lits) and all(l in erd for l in lits)
     # the reader must compare over the given length (not a NUL-terminated scan) — shared with C03
     bounded = all((e.get("callee") or "") in ("strncmp", "std::strncmp", "strncasecmp", "memcmp", "std::memcmp") for e in epr.calls(lambda e: (e.get("callee") or "") in tables.MATCHERS | {"memcmp", "std::memcmp"}))
     ck.ob("C16-R3", "table:Expect", ok and bounded, epr.loc, epr, "writer %s ⊆ reader %s; length-bounded comparison=%s" % (lits, sorted(erd), bounded))
